@@ -1,14 +1,23 @@
 /-!
 # Model of the stop protocol of one protocol pipeline (`run()` read loop vs `shutdown()`) and of `main`
 
-Steps are the statements of the Go functions (extracted by factgen into `Vflow.Gen.ShutdownIR`).
+Steps are the statements of the Go functions (extracted by factgen into `Vflow.Gen.ShutdownIR`):
+the statements of `shutdown()`, the body of the read loop, and the statements of `run()` that follow
+the loop (since the F21 repair: `close(queue)` — the read loop, the only sender, closes its queue
+itself once it has left the loop; `shutdown()` no longer does).
 The interleaving model: the reader and the shutdown goroutine run their programs concurrently; a
-step is atomic.  Time enters through two facts about the 1 s constants, encoded as *enabledness*:
-* `sleep1s` finishes only when no read armed before `stop` was set is still pending (the read
-  deadline is 1 s and was armed earlier than the sleep started);
-* hypothesis `H` (`handoffBeforeClose`): the reader, once `ReadFromUDP` has returned a datagram,
-  enqueues it before the shutdown goroutine reaches `close(queue)` (i.e. it is not descheduled for
-  longer than the dump and the log line take).  Without `H` a send on the closed channel is reachable.
+step is atomic.  Closing the queue a second time, or sending on it once it is closed, panics (Go
+semantics of `close` / `ch <- v`); both are recorded in `panicked`.
+
+Time enters only through two *optional* assumptions (`Assume`), encoded as enabledness:
+* `deadlines`: `sleep1s` finishes only when no read armed before `stop` was set is still pending
+  (the read deadline is 1 s and was armed earlier than the sleep started).  A process that does not
+  run for a while (SIGSTOP, VM pause, cgroup freeze) breaks this: with `deadlines := false` the
+  sleep may end at any moment.
+* `handoff` (hypothesis `H` of the design): the reader, once `ReadFromUDP` has returned a datagram,
+  enqueues it before the shutdown goroutine reaches a `close(queue)` of its own.  It matters only for
+  a `shutdown()` that closes the queue (the program before the F21 repair, kept in `Props/C15` as a
+  regression witness): without it a send on the closed channel is reachable there.
 -/
 namespace Vflow.Shutdown
 
@@ -18,9 +27,10 @@ inductive SStep where
   | unrecognised (go : String)
 deriving Repr, DecidableEq
 
-/-- statements of the read loop -/
+/-- statements of the read loop, and of `run()` after the loop -/
 inductive RStep where
   | whileNotStop | getBuf | deadline1s | read | onErrorContinue | countUDP | enqueue
+  | closeQueue | log
   | unrecognised (go : String)
 deriving Repr, DecidableEq
 
@@ -30,12 +40,31 @@ inductive MStep where
   | unrecognised (go : String)
 deriving Repr, DecidableEq
 
+/-- the stop protocol of one listener: the statements of `shutdown()` and the statements of `run()`
+after the read loop (the loop body itself is fixed: `Props/C15.gen_read_loops`) -/
+structure Prog where
+  shutdown : List SStep
+  afterLoop : List RStep
+deriving Repr, DecidableEq
+
+/-- the optional timing assumptions (see the module comment) -/
+structure Assume where
+  handoff : Bool
+  deadlines : Bool
+deriving Repr, DecidableEq
+
+/-- no assumption at all: every interleaving of the atomic steps -/
+def Assume.none : Assume := ⟨false, false⟩
+/-- the four combinations -/
+def Assume.all : List Assume := [⟨false, false⟩, ⟨false, true⟩, ⟨true, false⟩, ⟨true, true⟩]
+
 /-- reader program counter -/
 inductive RPc where
   | atCheck      -- about to evaluate `!stop`
   | inRead       -- deadline armed, blocked in ReadFromUDP
   | havePacket   -- read returned a datagram; about to count and enqueue it
-  | exited
+  | leaving (k : Nat) -- left the loop; about to execute statement `k` of `afterLoop`
+  | exited       -- `run()` has returned
 deriving Repr, DecidableEq
 
 structure St where
@@ -46,47 +75,62 @@ structure St where
   connClosed : Bool := false
   dumped : Bool := false
   dumpedAfterStop : Bool := true
-  panicked : Bool := false  -- a send on the closed queue happened
+  panicked : Bool := false  -- a send on the closed queue, or a second close, happened
   readsAfterStop : Nat := 0 -- reads completed since stop was set (ghost)
 deriving Repr, DecidableEq
 
 /-- reader steps enabled in `s` -/
-def readerSteps (s : St) : List St :=
+def readerSteps (p : Prog) (s : St) : List St :=
   match s.rpc with
-  | .atCheck => [if s.stop then { s with rpc := .exited } else { s with rpc := .inRead }]
+  | .atCheck => [if s.stop then { s with rpc := .leaving 0 } else { s with rpc := .inRead }]
   | .inRead =>
     -- timeout / error → back to the check; a datagram → hand-off (unless the socket was closed)
     let back : St := { s with rpc := .atCheck, readsAfterStop := if s.stop then s.readsAfterStop + 1 else s.readsAfterStop }
     let pkt : St := { s with rpc := .havePacket, readsAfterStop := if s.stop then s.readsAfterStop + 1 else s.readsAfterStop }
     if s.connClosed then [back] else [back, pkt]
   | .havePacket => [{ s with rpc := .atCheck, panicked := s.panicked || s.closed }]
+  | .leaving k =>
+    match p.afterLoop[k]? with
+    | none => [{ s with rpc := .exited }]
+    | some .closeQueue => [{ s with rpc := .leaving (k + 1), closed := true, panicked := s.panicked || s.closed }]
+    | some _ => [{ s with rpc := .leaving (k + 1) }]
   | .exited => []
 
-/-- the shutdown step at `s.spc`, if enabled (`h` = hypothesis H is imposed) -/
-def shutdownSteps (prog : List SStep) (h : Bool) (s : St) : List St :=
-  match prog[s.spc]? with
+/-- the reader has left its loop for good (it will not send again) -/
+def St.pastLoop (s : St) : Bool :=
+  match s.rpc with
+  | .leaving _ | .exited => true
+  | _ => false
+
+/-- the shutdown step at `s.spc`, if enabled under the assumptions `a` -/
+def shutdownSteps (p : Prog) (a : Assume) (s : St) : List St :=
+  match p.shutdown[s.spc]? with
   | none => []
   | some .setStop => [{ s with stop := true, spc := s.spc + 1 }]
-  | some .sleep1s => if s.rpc = .inRead ∧ s.readsAfterStop = 0 ∧ ¬ s.connClosed then [] else [{ s with spc := s.spc + 1 }]
+  | some .sleep1s =>
+    if a.deadlines ∧ s.rpc = .inRead ∧ s.readsAfterStop = 0 ∧ ¬ s.connClosed then [] else [{ s with spc := s.spc + 1 }]
   | some .dump => [{ s with dumped := true, dumpedAfterStop := s.stop, spc := s.spc + 1 }]
   | some .closeConn => [{ s with connClosed := true, spc := s.spc + 1 }]
-  | some .closeQueue => if h ∧ s.rpc = .havePacket then [] else [{ s with closed := true, spc := s.spc + 1 }]
+  | some .closeQueue =>
+    if a.handoff ∧ s.rpc = .havePacket then [] else [{ s with closed := true, panicked := s.panicked || s.closed, spc := s.spc + 1 }]
   | some _ => [{ s with spc := s.spc + 1 }]
 
-def next (prog : List SStep) (h : Bool) (s : St) : List St := readerSteps s ++ shutdownSteps prog h s
+def next (p : Prog) (a : Assume) (s : St) : List St := readerSteps p s ++ shutdownSteps p a s
 
-/-- breadth-first closure under `next`, `fuel` rounds -/
-def reach (prog : List SStep) (h : Bool) : Nat → List St → List St
-  | 0, seen => seen
-  | fuel + 1, seen =>
-    let new := (seen.flatMap (next prog h)).filter (fun s => !seen.contains s)
-    if new.isEmpty then seen else reach prog h fuel (seen ++ new.eraseDups)
+/-- breadth-first closure under `next`, at most `fuel` rounds: `seen` = the states found so far, `frontier` = those
+found in the last round (only they can have successors not seen yet). That nothing is missed is not taken on
+trust: `closedUnderNext` re-checks the result against `next`. -/
+def reach (p : Prog) (a : Assume) : Nat → List St → List St → List St
+  | 0, seen, _ => seen
+  | fuel + 1, seen, frontier =>
+    let new := ((frontier.flatMap (next p a)).filter (fun s => !seen.contains s)).eraseDups
+    if new.isEmpty then seen else reach p a fuel (seen ++ new) new
 
 /-- all states reachable from the initial state by any interleaving -/
-def reachable (prog : List SStep) (h : Bool) : List St := reach prog h 64 [{}]
+def reachable (p : Prog) (a : Assume) : List St := reach p a 64 [{}] [{}]
 
 /-- the fixed point was reached (no new state in one more round) -/
-def closedUnderNext (prog : List SStep) (h : Bool) : Bool :=
-  (reachable prog h).all fun s => (next prog h s).all fun t => (reachable prog h).contains t
+def closedUnderNext (p : Prog) (a : Assume) : Bool :=
+  (reachable p a).all fun s => (next p a s).all fun t => (reachable p a).contains t
 
 end Vflow.Shutdown
